@@ -723,12 +723,16 @@ impl StructuralPageDecoder for MiniBlockDecoder {
 struct CachedComplexAllNullState {
     rep: Option<ScalarBuffer<u16>>,
     def: Option<ScalarBuffer<u16>>,
+    // The level slot at which each row starts (plus the total number of slots).  Only set
+    // if there is repetition and some row owns more than one slot (e.g. `[[], []]`)
+    row_starts: Option<Arc<[u64]>>,
 }
 
 impl DeepSizeOf for CachedComplexAllNullState {
     fn deep_size_of_children(&self, _ctx: &mut Context) -> usize {
         self.rep.as_ref().map(|buf| buf.len() * 2).unwrap_or(0)
             + self.def.as_ref().map(|buf| buf.len() * 2).unwrap_or(0)
+            + self.row_starts.as_ref().map(|s| s.len() * 8).unwrap_or(0)
     }
 }
 
@@ -794,6 +798,7 @@ impl StructuralPageScheduler for ComplexAllNullScheduler {
         }
 
         let data = io.submit_request(reads, 0);
+        let max_rep = self.def_meaning.iter().filter(|l| l.is_list()).count() as u16;
 
         async move {
             let data = data.await?;
@@ -808,6 +813,23 @@ impl StructuralPageScheduler for ComplexAllNullScheduler {
                 None
             };
 
+            // A row starts wherever the repetition level is max_rep.  If every slot starts
+            // a row then rows and slots coincide and no mapping is needed.
+            let row_starts = rep.as_ref().and_then(|rep| {
+                let num_rows = rep.iter().filter(|r| **r == max_rep).count();
+                if num_rows == rep.len() {
+                    return None;
+                }
+                let row_starts = rep
+                    .iter()
+                    .enumerate()
+                    .filter(|(_, r)| **r == max_rep)
+                    .map(|(idx, _)| idx as u64)
+                    .chain(std::iter::once(rep.len() as u64))
+                    .collect::<Vec<_>>();
+                Some(Arc::<[u64]>::from(row_starts))
+            });
+
             let def = if has_def {
                 let def = data_iter.next().unwrap();
                 let def = LanceBuffer::from_bytes(def, 2);
@@ -817,7 +839,11 @@ impl StructuralPageScheduler for ComplexAllNullScheduler {
                 None
             };
 
-            let repdef = Arc::new(CachedComplexAllNullState { rep, def });
+            let repdef = Arc::new(CachedComplexAllNullState {
+                rep,
+                def,
+                row_starts,
+            });
 
             self.repdef = Some(repdef.clone());
 
@@ -846,6 +872,7 @@ impl StructuralPageScheduler for ComplexAllNullScheduler {
             ranges,
             rep: self.repdef.as_ref().unwrap().rep.clone(),
             def: self.repdef.as_ref().unwrap().def.clone(),
+            row_starts: self.repdef.as_ref().unwrap().row_starts.clone(),
             num_rows,
             def_meaning: self.def_meaning.clone(),
             max_visible_level: self.max_visible_level,
@@ -863,6 +890,7 @@ pub struct ComplexAllNullPageDecoder {
     ranges: VecDeque<Range<u64>>,
     rep: Option<ScalarBuffer<u16>>,
     def: Option<ScalarBuffer<u16>>,
+    row_starts: Option<Arc<[u64]>>,
     num_rows: u64,
     def_meaning: Arc<[DefinitionInterpretation]>,
     max_visible_level: u16,
@@ -895,6 +923,7 @@ impl StructuralPageDecoder for ComplexAllNullPageDecoder {
             ranges: drained_ranges,
             rep: self.rep.clone(),
             def: self.def.clone(),
+            row_starts: self.row_starts.clone(),
             def_meaning: self.def_meaning.clone(),
             max_visible_level: self.max_visible_level,
         }))
@@ -912,6 +941,7 @@ pub struct DecodeComplexAllNullTask {
     ranges: Vec<Range<u64>>,
     rep: Option<ScalarBuffer<u16>>,
     def: Option<ScalarBuffer<u16>>,
+    row_starts: Option<Arc<[u64]>>,
     def_meaning: Arc<[DefinitionInterpretation]>,
     max_visible_level: u16,
 }
@@ -924,15 +954,28 @@ impl DecodeComplexAllNullTask {
     ) -> Option<Vec<u16>> {
         levels.as_ref().map(|levels| {
             let mut referenced_levels = Vec::with_capacity(num_values as usize);
-            for range in &self.ranges {
-                referenced_levels.extend(
-                    levels[range.start as usize..range.end as usize]
-                        .iter()
-                        .copied(),
-                );
+            for range in self.level_ranges() {
+                referenced_levels.extend(levels[range].iter().copied());
             }
             referenced_levels
         })
+    }
+
+    /// Maps the requested row ranges to ranges of level slots
+    ///
+    /// Usually every row has exactly one slot.  With repetition a row can own several
+    /// slots (from its start up to the next row start), in which case the scheduler has
+    /// computed the row starts.
+    fn level_ranges(&self) -> Vec<Range<usize>> {
+        self.ranges
+            .iter()
+            .map(|r| match &self.row_starts {
+                Some(row_starts) => {
+                    row_starts[r.start as usize] as usize..row_starts[r.end as usize] as usize
+                }
+                None => r.start as usize..r.end as usize,
+            })
+            .collect()
     }
 }
 
